@@ -304,6 +304,14 @@ func checkC15(c *ev.Ctx) {
 			c.Sample(c15Case{Kind: "text", Text: texts[i]})
 		}
 	})
+	// history independence: a serial second pass over the texts in a stride order, interleaved with JSON round trips of
+	// attribute sets that carry touchless-sudo blocks (decoders that keep state between calls show up here)
+	for i := 0; i < len(texts) && i < 20000; i++ {
+		c15Text(c, texts[(i*7919)%len(texts)], "stride pass")
+		if i%5 == 0 {
+			c15Attrs(c, cases[(i*104729)%len(cases)])
+		}
+	}
 	// JSON catalogue: objects that also look like legacy text, missing fields, wrong types, non-objects
 	full := `"username":"u","hostname":"h","sshClientVersion":"8.1"`
 	cat := []string{"null", "[]", "[1]", "7", `"s"`, `"req=u@h"`, "true", "{}", "{" + full + "}", `{"username":"u","hostname":"h"}`, `{"username":"u","sshClientVersion":"8.1"}`,
@@ -315,6 +323,12 @@ func checkC15(c *ev.Ctx) {
 		"\xff\xfe", "", " ", "req=\xff@h"}
 	for _, t := range cat {
 		c15Text(c, t, "catalogue")
+	}
+	for _, t1 := range cat {
+		for _, t2 := range cat {
+			c15Text(c, t1, "catalogue pair/first")
+			c15Text(c, t2, "catalogue pair/second")
+		}
 	}
 	c.Sample(c15Case{Kind: "text", Text: cat[13]})
 }
